@@ -118,13 +118,34 @@ def dec_model_res(line):
 
 
 def impl_infer(headers):
-    """('ok', (ty, dv)) / ('err', kind) / ('oou', what) under CLI semantics"""
-    from rpft.parsers.common.model_inference import model_from_headers_rec
-    with warnings.catch_warnings():
-        warnings.simplefilter("ignore")
-        r = run_cli_mode(model_from_headers_rec, "sheet", list(headers))
+    """('ok', (ty, dv)) / ('err', kind) / ('oou', what) under CLI semantics.
+    'oou' = the call met a type outside the universe of the mirror: in its result, or as the
+    annotation of a column whose type model_from_headers_rec then discards (only the last entry
+    of an index-spread list gives the element type).  The mirror says Err EUnknownType for every
+    annotation it cannot name, so it cannot tell these cases from an error (Infer.v, header)."""
+    from rpft.parsers.common import model_inference as mi
+    met = []
+    orig = mi.type_from_string
+
+    def spy(string):
+        t = orig(string)
+        try:
+            canon_type(t)
+        except OutOfUniverse as e:
+            met.append(str(e))
+        return t
+
+    mi.type_from_string = spy
+    try:
+        with warnings.catch_warnings():
+            warnings.simplefilter("ignore")
+            r = run_cli_mode(mi.model_from_headers_rec, "sheet", list(headers))
+    finally:
+        mi.type_from_string = orig
     if r[0] != "ok":
         return ("err", r[1])
+    if met:
+        return ("oou", met[0])
     try:
         return ("ok", (canon_type(r[1][0]), canon_default(r[1][1])))
     except OutOfUniverse as e:
